@@ -209,6 +209,10 @@ fn grid1(en: &Entry) -> Vec<String> {
     let mut out: Vec<String> = general.into_iter().map(|s| s.to_string()).collect();
     // arguments that are themselves operations (a function that looks at the shape of its argument instead of its value:
     // ln of a power taken apart, sqrt of a square cancelled ...), with negative bases under even powers
+    if !int_only && matches!(en.canon, "pow" | "root") {
+        // whole exponents / indices written or computed with decimals, for negative bases
+        out.extend(["2.00", "4.000", "(1.5+1.5)", "(0.5*4)", "(6/2)", "(-2.0)", "(0.0)", "(-2)", "(-3)", "(-1.5)", "(-0.5)"].iter().map(|s| s.to_string()));
+    }
     if int_only {
         out.extend(["((0-3)^2)", "((0-2)^4)", "((0-4)²)", "pow(0-5,2)", "((1-3)^0)", "(3*3)", "(81/9)", "(2^10)", "(5-(0-4))", "abs(0-16)", "(7%4)"].iter().map(|s| s.to_string()));
     } else {
